@@ -408,7 +408,7 @@ impl VisitMut for Rw {
                     let m = format_ident!("path_{}", name);
                     let recv = &mc.receiver; let args = &mc.args;
                     let w = self.world_expr();
-                    *e = if args.is_empty() { parse_quote!(#w.#m(#recv)) } else { parse_quote!(#w.#m(#recv, #args)) };
+                    *e = if args.is_empty() { parse_quote!(#w.#m(&#recv)) } else { parse_quote!(#w.#m(&#recv, #args)) };
                     return;
                 }
                 if self.o.worldfns.iter().any(|f| *f == name) {
@@ -475,6 +475,22 @@ impl VisitMut for Rw {
                     self.errors.push("UNSUPPORTED fold shape".into());
                 }
             }
+            // R6: if cfg!(..) {A} else {B}
+            Expr::If(i) => {
+                if let Expr::Macro(m) = &*i.cond {
+                    if m.mac.path.is_ident("cfg") {
+                        let decided = syn::parse2::<Meta>(m.mac.tokens.clone()).ok().and_then(|mm| cfg_eval(&mm));
+                        match decided {
+                            Some(true) => { self.bump("R6"); let b = i.then_branch.clone(); *e = Expr::Block(syn::ExprBlock { attrs: vec![], label: None, block: b }); }
+                            Some(false) => {
+                                self.bump("R6");
+                                match &i.else_branch { Some((_, eb)) => { let eb = (**eb).clone(); *e = eb; } None => { *e = parse_quote!({}); } }
+                            }
+                            None => self.errors.push(format!("UNSUPPORTED cfg! predicate {}", m.mac.tokens)),
+                        }
+                    }
+                }
+            }
             // R20
             Expr::Index(ix) => {
                 let recv = ix.expr.to_token_stream().to_string();
@@ -515,7 +531,8 @@ impl VisitMut for Rw {
                                 }
                                 if good && pos == args.len() {
                                     self.bump("R5");
-                                    replacement = Some(parse_quote!(fmt_concat(vec![#(#pieces),*])));
+                                    let f = format_ident!("fmt_concat{}", pieces.len());
+                                    replacement = Some(parse_quote!(#f(#(#pieces),*)));
                                     ok = true;
                                 }
                             }
@@ -865,6 +882,20 @@ fn emit_fn(key: &str, file: &str, mut sig: syn::Signature, mut block: syn::Block
     }
     for g in extra { sig.generics.params.push(syn::parse2(g).unwrap()); }
     rw.visit_block_mut(&mut block);
+    // anchors after every top-level statement (not after the tail expression)
+    {
+        let n = block.stmts.len();
+        let mut out: Vec<Stmt> = Vec::new();
+        for (i, st) in block.stmts.drain(..).enumerate() {
+            let is_tail = i + 1 == n && matches!(st, Stmt::Expr(_, None));
+            out.push(st);
+            if !is_tail {
+                let m = format_ident!("__verif_stmt_{}", i);
+                out.push(parse_quote!(#m!();));
+            }
+        }
+        block.stmts = out;
+    }
     // R1: world parameter
     if o.world {
         let pos = if matches!(sig.inputs.first(), Some(FnArg::Receiver(_))) { 1 } else { 0 };
@@ -936,19 +967,55 @@ fn emit_item(key: &str, file: &str, mut it: Item, _o: &Opts) {
         (kw, it.span().end().line)
     };
     let mut derives = vec![];
+    // R8: thiserror `#[from]` => the From impl it generates, as a QFrom impl (used by R19)
+    let mut from_impls: Vec<String> = vec![];
+    if let Item::Enum(e) = &it {
+        let en = &e.ident;
+        let (ig, tg, wc) = e.generics.split_for_impl();
+        for v in &e.variants {
+            if let syn::Fields::Unnamed(fu) = &v.fields {
+                if fu.unnamed.len() == 1 && fu.unnamed[0].attrs.iter().any(|a| a.path().is_ident("from")) {
+                    let ty = &fu.unnamed[0].ty; let vn = &v.ident;
+                    from_impls.push(pretty(quote!(
+                        impl #ig QFrom<#ty> for #en #tg #wc {
+                            open spec fn qfrom_spec(t: #ty) -> Self { #en::#vn(t) }
+                            fn qfrom(t: #ty) -> (r: Self) { #en::#vn(t) }
+                        }
+                    )));
+                }
+            }
+        }
+    }
     match &mut it {
         Item::Enum(e) => { strip_item_attrs(&mut e.attrs, &mut derives); e.vis = parse_quote!(pub); }
         Item::Struct(e) => { strip_item_attrs(&mut e.attrs, &mut derives); e.vis = parse_quote!(pub); }
-        Item::Const(e) => { strip_item_attrs(&mut e.attrs, &mut derives); e.vis = parse_quote!(pub); }
+        Item::Const(e) => {
+            strip_item_attrs(&mut e.attrs, &mut derives); e.vis = parse_quote!(pub);
+            // R22: the elided lifetime of a const reference is 'static; Verus wants it spelled out
+            if let Type::Reference(r) = &mut *e.ty { if r.lifetime.is_none() { r.lifetime = Some(parse_quote!('static)); } }
+        }
         Item::Type(e) => { strip_item_attrs(&mut e.attrs, &mut derives); e.vis = parse_quote!(pub); }
         Item::Static(e) => { strip_item_attrs(&mut e.attrs, &mut derives); e.vis = parse_quote!(pub); }
         _ => {}
     }
     sd.visit_item_mut(&mut it);
+    if let Item::Const(c) = &it {
+        // exec const with a contract slot:  pub exec const N: T <contract> { EXPR }
+        let (n, t, e) = (&c.ident, &c.ty, &c.expr);
+        println!("@@ITEM {key}");
+        println!("@@META file={file} line_start={start} line_end={end} loops=0 closures=0 rewrites=R8:1,R22:1 derives=");
+        println!("@@TEXT");
+        println!("{}", pretty(quote!(pub exec const #n : #t)));
+        println!("__VERIF_CONTRACT__");
+        println!("{{ {} }}", pretty(e.to_token_stream()));
+        println!("@@END");
+        return;
+    }
     println!("@@ITEM {key}");
     println!("@@META file={file} line_start={start} line_end={end} loops=0 closures=0 rewrites=R8:1 derives={}", derives.join(";").replace(' ', ""));
     println!("@@TEXT");
     println!("{}", pretty(it.to_token_stream()));
+    for f in &from_impls { println!("{f}"); }
     println!("@@END");
 }
 
